@@ -47,6 +47,7 @@ package cache
 //@ define liveV(o, t) = ite(live(o, t), IV(val(o)), nil)
 //@ define allItems(P) = forall q: string :: present(P[q]) ==> is(val(P[q]), item)
 //@ define EC(c) = c.evictedCallback.v.(EvictedCallback)
+//@ define removedEntry(P, t, k, v) = present(P[k]) && isExpired(IE(val(P[k])), t) && v == IV(val(P[k]))
 //@ define cacheInv(c) = c != nil && cfgOK(c) && c.items != nil && mapInv(c.items) && allItems(view(c.items))
 
 //@ func (*xsyncMap).Set
@@ -177,7 +178,7 @@ package cache
 
 //@ func (*xsyncMap).Count
 //@   requires cacheInv(c)
-//@   ensures {C08} post.value: bv2int(res0) == card(view(c.items))
+//@   ensures {C08} post.value: res0 == card(view(c.items))
 
 //@ func (*xsyncMap).SetDefaultExpiration
 //@   requires cacheInv(c)
@@ -207,7 +208,7 @@ package cache
 //@   ensures {C01} post.loaded: res1 == live(o, now)
 //@   ensures {C01} post.value: res0 == liveV(o, now)
 //@   ensures {C01,C06} post.state: cbpure ==> view(c.items) == remove(P, k)
-//@   ensures {C06} post.fired: cbpure ==> cbn(ec) == n0 + ite(fires, 1, 0)
+//@   ensures {C06} post.fired: cbpure ==> cbn(ec) == ite(fires, n0 + 1, n0)
 //@   ensures {C06} post.firedwith: cbpure && fires ==> cbf(ec, n0) == ec && cba(ec, n0, 0) == k && cba(ec, n0, 1) == IV(val(o))
 //@   ensures cacheInv(c)
 
@@ -221,8 +222,71 @@ package cache
 //@   let fires = present(o) && ec != nil
 //@   modifies view(c.items), ledger(EC(c))
 //@   ensures {C01,C06} post.state: cbpure ==> view(c.items) == remove(P, k)
-//@   ensures {C06} post.fired: cbpure ==> cbn(ec) == n0 + ite(fires, 1, 0)
+//@   ensures {C06} post.fired: cbpure ==> cbn(ec) == ite(fires, n0 + 1, n0)
 //@   ensures {C06} post.firedwith: cbpure && fires ==> cbf(ec, n0) == ec && cba(ec, n0, 0) == k && cba(ec, n0, 1) == IV(val(o))
+//@   ensures cacheInv(c)
+//@ func (*xsyncMap).DeleteExpired
+//@   requires cacheInv(c)
+//@   reenters cacheInv(c)
+//@   let P = old(view(c.items))
+//@   let t0 = now
+//@   let ec0 = old(EC(c))
+//@   let n0 = old(cbn(ec0))
+//@   modifies view(c.items), ledger(EC(c))
+//@   at Range: invariant {C01} removed: cbpure ==> (forall q: string :: view(c.items)[q] == ite(visited[q] && present(P[q]) && isExpired(IE(val(P[q])), t0), none, P[q]))
+//@   at Range: invariant stable: cacheInv(c) && c.items == old(c.items) && ec == ec0 && cbn(ec0) == n0
+//@   at Range: invariant queue: wfslice(evictedItems) && (ec == nil ==> len(evictedItems) == 0)
+//@   at Range: invariant {C06} queued.count: cbpure && ec != nil ==> len(evictedItems) == card(P) - card(view(c.items))
+//@   at Range: invariant {C06} queued.visited: forall j: int :: 0 <= j && j < len(evictedItems) ==> visited[evictedItems[j].k]
+//@   at Range: invariant {C06} queued.entries: cbpure ==> (forall j: int :: 0 <= j && j < len(evictedItems) ==> removedEntry(P, t0, evictedItems[j].k, evictedItems[j].v))
+//@   at Range: invariant {C06} queued.distinct: forall i: int, j: int :: 0 <= i && i < j && j < len(evictedItems) ==> evictedItems[i].k != evictedItems[j].k
+//@   loop rangeindex.loop: invariant {C01} removed: cbpure ==> (forall q: string :: view(c.items)[q] == ite(present(P[q]) && isExpired(IE(val(P[q])), t0), none, P[q]))
+//@   loop rangeindex.loop: invariant stable: cacheInv(c) && ec == ec0
+//@   loop rangeindex.loop: invariant idx: rangeindex >= -1 && rangeindex < len(evictedItems)
+//@   loop rangeindex.loop: invariant queue: wfslice(evictedItems) && (ec == nil ==> len(evictedItems) == 0)
+//@   loop rangeindex.loop: invariant {C06} queued.count: cbpure && ec != nil ==> len(evictedItems) == card(P) - card(view(c.items))
+//@   loop rangeindex.loop: invariant {C06} queued.entries: cbpure ==> (forall j: int :: 0 <= j && j < len(evictedItems) ==> removedEntry(P, t0, evictedItems[j].k, evictedItems[j].v))
+//@   loop rangeindex.loop: invariant {C06} queued.distinct: forall i: int, j: int :: 0 <= i && i < j && j < len(evictedItems) ==> evictedItems[i].k != evictedItems[j].k
+//@   loop rangeindex.loop: invariant {C06} fired.count: cbpure ==> cbn(ec0) == n0 + rangeindex + 1
+//@   loop rangeindex.loop: invariant {C06} fired.entries: cbpure ==> (forall j: int :: n0 <= j && j < cbn(ec0) ==> cbf(ec0, j) == ec0 && cba(ec0, j, 0) == evictedItems[j - n0].k && cba(ec0, j, 1) == evictedItems[j - n0].v)
+//@   loop rangeindex.loop: invariant {C06} fired.once: cbpure ==> (forall i: int, j: int :: n0 <= i && i < j && j < cbn(ec0) ==> cba(ec0, i, 0) != cba(ec0, j, 0))
+//@   ensures {C01} post.state: cbpure ==> (forall q: string :: view(c.items)[q] == ite(present(P[q]) && isExpired(IE(val(P[q])), t0), none, P[q]))
+//@   ensures {C06} post.fired.count: cbpure ==> cbn(ec0) - n0 == ite(ec0 != nil, card(P) - card(view(c.items)), 0)
+//@   ensures {C06} post.fired.entries: cbpure ==> (forall j: int :: n0 <= j && j < cbn(ec0) ==> cbf(ec0, j) == ec0 && removedEntry(P, t0, cba(ec0, j, 0), cba(ec0, j, 1)))
+//@   ensures {C06} post.fired.once: cbpure ==> (forall i: int, j: int :: n0 <= i && i < j && j < cbn(ec0) ==> cba(ec0, i, 0) != cba(ec0, j, 0))
+//@   ensures cacheInv(c)
+//@ define liveMap(P, t) = lambda q: string :: ite(live(P[q], t), some(IV(val(P[q]))), none)
+
+//@ func (*xsyncMap).Range
+//@   requires cacheInv(c)
+//@   reenters cacheInv(c)
+//@   let P = old(view(c.items))
+//@   let t0 = now
+//@   let S0 = old(cbset(f))
+//@   let n0 = old(cbn(f))
+//@   iterates f over liveMap(view(c.items), t0)
+//@   modifies view(c.items), ledger(EC(c)), ledger(f)
+//@   oncall f: {C07,C01} visitor.args: arg0 == itk && arg1 == IV(itv) && !isExpired(IE(itv), t0)
+//@   at Range: iteration {C07} visitor.once: itcalls <= 1
+//@   at Range: iteration {C07} visitor.stop: itcalls == 1 ==> itret == itfret
+//@   at Range: iteration {C07} visitor.skip: itcalls == 0 ==> itret
+//@   at Range: invariant stable: cacheInv(c) && c.items == old(c.items) && f != nil && (cbpure ==> n0 <= cbn(f))
+//@   at Range: invariant {C07} nowrite: cbpure ==> view(c.items) == P
+//@   at Range: invariant {C07} visited.live: cbpure ==> (forall q: string :: cbset(f)[q] == (S0[q] || (visited[q] && live(P[q], t0))))
+//@   ensures {C07,C01} post.nil: f == nil ==> cbn(f) == n0 && view(c.items) == P
+//@   ensures {C07,C01} post.sound: cbpure ==> (forall q: string :: cbset(f)[q] ==> (S0[q] || live(P[q], t0)))
+//@   ensures {C07,C01} post.complete: f != nil && cbpure && (forall j: int :: n0 <= j && j < cbn(f) ==> cbr(f, j)) ==> (forall q: string :: live(P[q], t0) ==> cbset(f)[q])
+//@   ensures {C07} post.state: cbpure ==> view(c.items) == P
+//@   ensures cacheInv(c)
+
+//@ func (*xsyncMap).Items
+//@   requires cacheInv(c)
+//@   let P = old(view(c.items))
+//@   let t0 = now
+//@   at Range: invariant {C07,C01} collected: forall q: string :: gomap(items)[q] == ite(visited[q], liveMap(P, t0)[q], none)
+//@   at Range: invariant stable: cacheInv(c) && view(c.items) == P
+//@   ensures {C07,C01} post.exact: forall q: string :: gomap(res0)[q] == liveMap(P, t0)[q]
+//@   ensures {C07} post.state: view(c.items) == P
 //@   ensures cacheInv(c)
 //@ -- twin-end Cache
 
@@ -256,6 +320,7 @@ package cache
 //@ define liveOf(o, t) = present(o) && !isExpired(IEOf(val(o)), t)
 //@ define liveVOf(o, t) = ite(liveOf(o, t), IVOf(val(o)), nil)
 //@ define ECOf(c) = c.evictedCallback.v.(EvictedCallbackOf)
+//@ define removedEntryOf(P, t, k, v) = present(P[k]) && isExpired(IEOf(val(P[k])), t) && v == IVOf(val(P[k]))
 //@ define cacheInvOf(c) = c != nil && cfgOKOf(c) && c.items != nil && mapInv(c.items)
 
 //@ func (*xsyncMapOf[K, V]).Set
@@ -386,7 +451,7 @@ package cache
 
 //@ func (*xsyncMapOf[K, V]).Count
 //@   requires cacheInvOf(c)
-//@   ensures {C08} post.value: bv2int(res0) == card(view(c.items))
+//@   ensures {C08} post.value: res0 == card(view(c.items))
 
 //@ func (*xsyncMapOf[K, V]).SetDefaultExpiration
 //@   requires cacheInvOf(c)
@@ -416,7 +481,7 @@ package cache
 //@   ensures {C01} post.loaded: res1 == liveOf(o, now)
 //@   ensures {C01} post.value: res0 == liveVOf(o, now)
 //@   ensures {C01,C06} post.state: cbpure ==> view(c.items) == remove(P, k)
-//@   ensures {C06} post.fired: cbpure ==> cbn(ec) == n0 + ite(fires, 1, 0)
+//@   ensures {C06} post.fired: cbpure ==> cbn(ec) == ite(fires, n0 + 1, n0)
 //@   ensures {C06} post.firedwith: cbpure && fires ==> cbf(ec, n0) == ec && cba(ec, n0, 0) == k && cba(ec, n0, 1) == IVOf(val(o))
 //@   ensures cacheInvOf(c)
 
@@ -430,7 +495,70 @@ package cache
 //@   let fires = present(o) && ec != nil
 //@   modifies view(c.items), ledger(ECOf(c))
 //@   ensures {C01,C06} post.state: cbpure ==> view(c.items) == remove(P, k)
-//@   ensures {C06} post.fired: cbpure ==> cbn(ec) == n0 + ite(fires, 1, 0)
+//@   ensures {C06} post.fired: cbpure ==> cbn(ec) == ite(fires, n0 + 1, n0)
 //@   ensures {C06} post.firedwith: cbpure && fires ==> cbf(ec, n0) == ec && cba(ec, n0, 0) == k && cba(ec, n0, 1) == IVOf(val(o))
+//@   ensures cacheInvOf(c)
+//@ func (*xsyncMapOf[K, V]).DeleteExpired
+//@   requires cacheInvOf(c)
+//@   reenters cacheInvOf(c)
+//@   let P = old(view(c.items))
+//@   let t0 = now
+//@   let ec0 = old(ECOf(c))
+//@   let n0 = old(cbn(ec0))
+//@   modifies view(c.items), ledger(ECOf(c))
+//@   at Range: invariant {C01} removed: cbpure ==> (forall q: K :: view(c.items)[q] == ite(visited[q] && present(P[q]) && isExpired(IEOf(val(P[q])), t0), none, P[q]))
+//@   at Range: invariant stable: cacheInvOf(c) && c.items == old(c.items) && ec == ec0 && cbn(ec0) == n0
+//@   at Range: invariant queue: wfslice(evictedItems) && (ec == nil ==> len(evictedItems) == 0)
+//@   at Range: invariant {C06} queued.count: cbpure && ec != nil ==> len(evictedItems) == card(P) - card(view(c.items))
+//@   at Range: invariant {C06} queued.visited: forall j: int :: 0 <= j && j < len(evictedItems) ==> visited[evictedItems[j].k]
+//@   at Range: invariant {C06} queued.entries: cbpure ==> (forall j: int :: 0 <= j && j < len(evictedItems) ==> removedEntryOf(P, t0, evictedItems[j].k, evictedItems[j].v))
+//@   at Range: invariant {C06} queued.distinct: forall i: int, j: int :: 0 <= i && i < j && j < len(evictedItems) ==> evictedItems[i].k != evictedItems[j].k
+//@   loop rangeindex.loop: invariant {C01} removed: cbpure ==> (forall q: K :: view(c.items)[q] == ite(present(P[q]) && isExpired(IEOf(val(P[q])), t0), none, P[q]))
+//@   loop rangeindex.loop: invariant stable: cacheInvOf(c) && ec == ec0
+//@   loop rangeindex.loop: invariant idx: rangeindex >= -1 && rangeindex < len(evictedItems)
+//@   loop rangeindex.loop: invariant queue: wfslice(evictedItems) && (ec == nil ==> len(evictedItems) == 0)
+//@   loop rangeindex.loop: invariant {C06} queued.count: cbpure && ec != nil ==> len(evictedItems) == card(P) - card(view(c.items))
+//@   loop rangeindex.loop: invariant {C06} queued.entries: cbpure ==> (forall j: int :: 0 <= j && j < len(evictedItems) ==> removedEntryOf(P, t0, evictedItems[j].k, evictedItems[j].v))
+//@   loop rangeindex.loop: invariant {C06} queued.distinct: forall i: int, j: int :: 0 <= i && i < j && j < len(evictedItems) ==> evictedItems[i].k != evictedItems[j].k
+//@   loop rangeindex.loop: invariant {C06} fired.count: cbpure ==> cbn(ec0) == n0 + rangeindex + 1
+//@   loop rangeindex.loop: invariant {C06} fired.entries: cbpure ==> (forall j: int :: n0 <= j && j < cbn(ec0) ==> cbf(ec0, j) == ec0 && cba(ec0, j, 0) == evictedItems[j - n0].k && cba(ec0, j, 1) == evictedItems[j - n0].v)
+//@   loop rangeindex.loop: invariant {C06} fired.once: cbpure ==> (forall i: int, j: int :: n0 <= i && i < j && j < cbn(ec0) ==> cba(ec0, i, 0) != cba(ec0, j, 0))
+//@   ensures {C01} post.state: cbpure ==> (forall q: K :: view(c.items)[q] == ite(present(P[q]) && isExpired(IEOf(val(P[q])), t0), none, P[q]))
+//@   ensures {C06} post.fired.count: cbpure ==> cbn(ec0) - n0 == ite(ec0 != nil, card(P) - card(view(c.items)), 0)
+//@   ensures {C06} post.fired.entries: cbpure ==> (forall j: int :: n0 <= j && j < cbn(ec0) ==> cbf(ec0, j) == ec0 && removedEntryOf(P, t0, cba(ec0, j, 0), cba(ec0, j, 1)))
+//@   ensures {C06} post.fired.once: cbpure ==> (forall i: int, j: int :: n0 <= i && i < j && j < cbn(ec0) ==> cba(ec0, i, 0) != cba(ec0, j, 0))
+//@   ensures cacheInvOf(c)
+//@ define liveMapOf(P, t) = lambda q: K :: ite(liveOf(P[q], t), some(IVOf(val(P[q]))), none)
+
+//@ func (*xsyncMapOf[K, V]).Range
+//@   requires cacheInvOf(c)
+//@   reenters cacheInvOf(c)
+//@   let P = old(view(c.items))
+//@   let t0 = now
+//@   let S0 = old(cbset(f))
+//@   let n0 = old(cbn(f))
+//@   iterates f over liveMapOf(view(c.items), t0)
+//@   modifies view(c.items), ledger(ECOf(c)), ledger(f)
+//@   oncall f: {C07,C01} visitor.args: arg0 == itk && arg1 == IVOf(itv) && !isExpired(IEOf(itv), t0)
+//@   at Range: iteration {C07} visitor.once: itcalls <= 1
+//@   at Range: iteration {C07} visitor.stop: itcalls == 1 ==> itret == itfret
+//@   at Range: iteration {C07} visitor.skip: itcalls == 0 ==> itret
+//@   at Range: invariant stable: cacheInvOf(c) && c.items == old(c.items) && f != nil && (cbpure ==> n0 <= cbn(f))
+//@   at Range: invariant {C07} nowrite: cbpure ==> view(c.items) == P
+//@   at Range: invariant {C07} visited.live: cbpure ==> (forall q: K :: cbset(f)[q] == (S0[q] || (visited[q] && liveOf(P[q], t0))))
+//@   ensures {C07,C01} post.nil: f == nil ==> cbn(f) == n0 && view(c.items) == P
+//@   ensures {C07,C01} post.sound: cbpure ==> (forall q: K :: cbset(f)[q] ==> (S0[q] || liveOf(P[q], t0)))
+//@   ensures {C07,C01} post.complete: f != nil && cbpure && (forall j: int :: n0 <= j && j < cbn(f) ==> cbr(f, j)) ==> (forall q: K :: liveOf(P[q], t0) ==> cbset(f)[q])
+//@   ensures {C07} post.state: cbpure ==> view(c.items) == P
+//@   ensures cacheInvOf(c)
+
+//@ func (*xsyncMapOf[K, V]).Items
+//@   requires cacheInvOf(c)
+//@   let P = old(view(c.items))
+//@   let t0 = now
+//@   at Range: invariant {C07,C01} collected: forall q: K :: gomap(items)[q] == ite(visited[q], liveMapOf(P, t0)[q], none)
+//@   at Range: invariant stable: cacheInvOf(c) && view(c.items) == P
+//@   ensures {C07,C01} post.exact: forall q: K :: gomap(res0)[q] == liveMapOf(P, t0)[q]
+//@   ensures {C07} post.state: view(c.items) == P
 //@   ensures cacheInvOf(c)
 //@ -- twin-end CacheOf
